@@ -1280,7 +1280,167 @@ func c11CloseHandleFacts(r *Repo, w *Lean, kinds []c11Kind) error {
 	w.Line("/-- Kafka kinds: in `Handle` every `….Input() <- msg` is preceded, in its block, by a read-lock and by")
 	w.Line("`if recv.F { return … }`, where `Close` assigns `recv.F = true` between `Lock()` and `Unlock()` before `close(recv.done)`. -/")
 	w.Line("def kafkaSendGuarded : List (String × Bool) := [%s]", strings.Join(guarded, ", "))
+	if err := c11PipelineReloadFacts(r, w); err != nil {
+		return err
+	}
 	return c11ValidatorFreshCache(r, w)
+}
+
+// c11PipelineReloadFacts: the shape of Pipeline.reload's loop over p.spec.Filters that the resilience
+// model rests on (every filter of generation g is a new instance injected with generation g's policies):
+//
+//   - the variable stored by `p.filters[…] = X` is defined exactly once in the loop body, at its top
+//     level, as `X := filters.Create(spec)`, and never assigned again;
+//   - at the top level of the same loop body there is `if r, ok := X.(filters.Resiliencer); ok { … }`
+//     whose body calls `r.InjectResiliencePolicy(p.resilience)`;
+//   - the previous generation (reload's parameter) is used only as `<param> != nil` and
+//     `<param>.getFilter(…)`, and the variable holding that result only as `== nil` / `!= nil` and as
+//     the argument of `X.Inherit(…)`: no filter instance of the previous generation can be stored
+//     into the new one. Every other use is listed.
+func c11PipelineReloadFacts(r *Repo, w *Lean) error {
+	fd, err := r.Func("pkg/object/pipeline/pipeline.go", "Pipeline", "reload")
+	if err != nil {
+		return err
+	}
+	if fd.Type.Params == nil || len(fd.Type.Params.List) != 1 || len(fd.Type.Params.List[0].Names) != 1 || len(fd.Recv.List[0].Names) != 1 {
+		return fmt.Errorf("Pipeline.reload: unexpected signature")
+	}
+	recv := fd.Recv.List[0].Names[0].Name
+	prevParam := fd.Type.Params.List[0].Names[0].Name
+	var loop *ast.RangeStmt
+	for _, st := range fd.Body.List {
+		if rs, ok := st.(*ast.RangeStmt); ok && r.Src(rs.X) == recv+".spec.Filters" {
+			loop = rs
+		}
+	}
+	if loop == nil {
+		return fmt.Errorf("Pipeline.reload: loop over %s.spec.Filters not found", recv)
+	}
+	// the stored variable
+	stored := ""
+	nStores := 0
+	ast.Inspect(fd.Body, func(n ast.Node) bool {
+		as, ok := n.(*ast.AssignStmt)
+		if !ok {
+			return true
+		}
+		for i, l := range as.Lhs {
+			if ie, ok := l.(*ast.IndexExpr); ok && r.Src(ie.X) == recv+".filters" && i < len(as.Rhs) {
+				nStores++
+				if id, ok := as.Rhs[i].(*ast.Ident); ok {
+					stored = id.Name
+				} else {
+					stored = "?" + r.Src(as.Rhs[i])
+				}
+			}
+		}
+		return true
+	})
+	created, injected := false, false
+	defs := 0
+	prevVars := map[string]bool{}
+	for _, st := range loop.Body.List {
+		switch t := st.(type) {
+		case *ast.AssignStmt:
+			if t.Tok == token.DEFINE && len(t.Lhs) == 1 && len(t.Rhs) == 1 && r.Src(t.Lhs[0]) == stored && r.Src(t.Rhs[0]) == "filters.Create(spec)" {
+				created = true
+			}
+		case *ast.IfStmt:
+			if as, ok := t.Init.(*ast.AssignStmt); ok && len(as.Rhs) == 1 && r.Src(as.Rhs[0]) == stored+".(filters.Resiliencer)" && len(as.Lhs) == 2 && r.Src(t.Cond) == r.Src(as.Lhs[1]) {
+				rv := r.Src(as.Lhs[0])
+				for _, b := range t.Body.List {
+					if r.Src(b) == rv+".InjectResiliencePolicy("+recv+".resilience)" {
+						injected = true
+					}
+				}
+			}
+		}
+	}
+	ast.Inspect(loop.Body, func(n ast.Node) bool {
+		if as, ok := n.(*ast.AssignStmt); ok {
+			for i, l := range as.Lhs {
+				if id, ok := l.(*ast.Ident); ok && id.Name == stored {
+					defs++
+				}
+				// variables that receive something of the previous generation
+				if i < len(as.Rhs) || len(as.Rhs) == 1 {
+					rhs := as.Rhs[0]
+					if i < len(as.Rhs) {
+						rhs = as.Rhs[i]
+					}
+					if root := c11RootIdent(rhs); root != nil && root.Name == prevParam {
+						if id, ok := l.(*ast.Ident); ok {
+							prevVars[id.Name] = true
+						}
+					}
+				}
+			}
+		}
+		return true
+	})
+	// uses of the previous generation and of the variables holding parts of it
+	var leaks []string
+	var visit func(n ast.Node, parent ast.Node)
+	allowed := func(e ast.Expr, parent ast.Node) bool {
+		switch p := parent.(type) {
+		case *ast.BinaryExpr:
+			return (p.Op == token.EQL || p.Op == token.NEQ) && (r.Src(p.X) == "nil" || r.Src(p.Y) == "nil")
+		case *ast.SelectorExpr:
+			return r.Src(e) == prevParam && p.Sel.Name == "getFilter"
+		case *ast.CallExpr:
+			if se, ok := p.Fun.(*ast.SelectorExpr); ok && r.Src(se.X) == stored && se.Sel.Name == "Inherit" && r.Src(e) != prevParam {
+				return true
+			}
+			// <param>.getFilter(...) itself
+			if se, ok := p.Fun.(*ast.SelectorExpr); ok && r.Src(se.X) == prevParam && se.Sel.Name == "getFilter" {
+				return true
+			}
+		case *ast.AssignStmt:
+			for _, l := range p.Lhs { // the defining / assigning occurrence of a prevVar
+				if l == e {
+					return true
+				}
+			}
+		case *ast.ValueSpec:
+			return true
+		}
+		return false
+	}
+	visit = func(n ast.Node, parent ast.Node) {
+		if n == nil {
+			return
+		}
+		if id, ok := n.(*ast.Ident); ok && (id.Name == prevParam || prevVars[id.Name]) {
+			if !allowed(id, parent) {
+				leaks = append(leaks, r.Src(parent))
+			}
+			return
+		}
+		var children []ast.Node
+		ast.Inspect(n, func(c ast.Node) bool {
+			if c == n {
+				return true
+			}
+			if c != nil {
+				children = append(children, c)
+			}
+			return false
+		})
+		for _, c := range children {
+			visit(c, n)
+		}
+	}
+	visit(fd.Body, fd)
+	sort.Strings(leaks)
+	ok := created && injected && defs == 1 && nStores == 1 && !strings.HasPrefix(stored, "?")
+	w.Line("-- Pipeline.reload: stored variable %q, created by filters.Create at loop top level: %v, definitions/assignments in the loop: %d, InjectResiliencePolicy at loop top level: %v, stores into %s.filters: %d", stored, created, defs, injected, recv, nStores)
+	w.Line("/-- `Pipeline.reload`: every filter stored into the new generation is a fresh `filters.Create(spec)` instance and")
+	w.Line("`InjectResiliencePolicy(p.resilience)` is called on it (if it is a Resiliencer) at the top level of the same loop. -/")
+	w.Line("def pipelineReloadInjectsEveryFilter : Bool := %s", Bool(ok))
+	w.Line("/-- uses of the previous generation (or of what `getFilter` returned from it) in `Pipeline.reload` other than")
+	w.Line("nil tests, `.getFilter(…)` and the argument of `<new filter>.Inherit(…)`. -/")
+	w.Line("def pipelineReloadPrevLeaks : List String := %s", StrList(leaks))
+	return nil
 }
 
 // c11ValidatorFreshCache: every assignment to `<recv>.basicAuth` in the methods of Validator is a call of
